@@ -1276,6 +1276,15 @@ class FCN(object):
         return g + constr_grad, h + constr_hessian
 
     def get_grad_hessp(self, x, p, batch):
+        cls = type(self.model)
+        if (
+            getattr(cls, "nll_grad_batch", None) is not Model.nll_grad_batch
+            and getattr(cls, "grad_hessp_batch", None) is Model.grad_hessp_batch
+        ):
+            # Model.grad_hessp_batch is the default likelihood: a model with its own
+            # nll_grad_batch but no grad_hessp_batch gets H.p from its own Hessian
+            _, g, h = self.get_nll_grad_hessian(x, batch)
+            return g, np.dot(np.array(h), np.array(p))
         self.model.set_params(x)
         grad, hessp = self.model.grad_hessp_batch(
             p,
